@@ -83,11 +83,14 @@ def build_lib(cfg, repo):
     fcntl.flock(lock, fcntl.LOCK_EX)
     try:
         if os.path.exists(lib):
+            os.utime(out, None)
             return out
-        # drop older cached builds of this cfg (disk hygiene)
+        # disk hygiene: drop cached builds of other trees that have not been used for an hour
+        # (never a recent one: another check may be running against a different tree right now)
+        import time
         for d in os.listdir(os.path.join(BUILD, cfg)):
             p = os.path.join(BUILD, cfg, d)
-            if os.path.isdir(p) and d != key:
+            if os.path.isdir(p) and d != key and time.time() - os.path.getmtime(p) > 3600:
                 shutil.rmtree(p, ignore_errors=True)
         tmp = out + ".tmp"
         shutil.rmtree(tmp, ignore_errors=True)
